@@ -501,6 +501,50 @@ def r9_vertices(ctx):
     ctx.need('R9.vertices', 1)
 
 
+def r10_network_range(ctx):
+    """R10: the slot range every OMS map is padded to is the extent of ALL installed amplifier bands: find_network_freq_range returns
+    (the minimum of the bands' f_min, the maximum of the bands' f_max) over the bands of every Edfa and Multiband_amplifier - read
+    through temporaries, whatever container form (list, generator) holds the values"""
+    from ..dataflow import local_defs
+    from .common import through_locals
+    repo = ctx.repo
+    f = repo.func(MOD, 'find_network_freq_range')
+    rets = [n for n in walk_no_nested(f.node) if isinstance(n, ast.Return) and n.value is not None]
+    if len(rets) != 1:
+        raise CannotAnalyse('find_network_freq_range: expected one return')
+    v = through_locals(rets[0].value, local_defs(f.node))
+    if not (isinstance(v, ast.Tuple) and len(v.elts) == 2):
+        raise CannotAnalyse(f'find_network_freq_range does not return a pair: {ast.unparse(v)[:120]}')
+    for e, fld, red, other in ((v.elts[0], 'f_min', ('min', 'amin', 'nanmin'), ('max', 'amax', 'nanmax')),
+                               (v.elts[1], 'f_max', ('max', 'amax', 'nanmax'), ('min', 'amin', 'nanmin'))):
+        fn_ = e.func.id if isinstance(e, ast.Call) and isinstance(e.func, ast.Name) else \
+            e.func.attr if isinstance(e, ast.Call) and isinstance(e.func, ast.Attribute) else None
+        keys = {c.value for c in ast.walk(e) if isinstance(c, ast.Constant) and c.value in ('f_min', 'f_max')}
+        if fn_ not in red + other or not keys:
+            raise CannotAnalyse(f'find_network_freq_range: {fld} edge is not a min / max over band fields: {ast.unparse(e)[:120]}')
+        ok = fn_ in red and keys == {fld}
+        ctx.check('R10.network-range', f'{site(f, rets[0])} {fld}', ok, key(f, f'range|{fld}'),
+                  f'the network-wide {"lower" if fld == "f_min" else "upper"} band edge is {fn_}(...{sorted(keys)}...) instead of {red[0]} over every '
+                  f"band's {fld}: with amplifiers of different bands the common slot range would not cover some OMS map (build_oms_list "
+                  'fails or maps end up with different ranges)', ast.unparse(e)[:160])
+        u = ast.unparse(e)
+        defs_ = local_defs(f.node)
+        todo, seen_ = [x.id for x in ast.walk(e) if isinstance(x, ast.Name)], set()
+        while todo:
+            nm = todo.pop()
+            if nm in seen_:
+                continue
+            seen_.add(nm)
+            for _, dv in defs_.get(nm, []):
+                if isinstance(dv, ast.AST):
+                    u += ' <- ' + ast.unparse(dv)
+                    todo.extend(x.id for x in ast.walk(dv) if isinstance(x, ast.Name))
+        ok = 'Edfa' in u and 'Multiband_amplifier' in u and '.bands' in u
+        ctx.check('R10.network-range', f'{site(f, rets[0])} {fld} population', ok, key(f, f'population|{fld}'),
+                  'the band edges are not collected from the bands of every Edfa and Multiband_amplifier of the network', u[:200])
+    ctx.need('R10.network-range', 4)
+
+
 from ..memo import rule_for as _memo_rule
 
 RULES_MEMO = ('Rm.memo', _memo_rule('C15', 'the spectrum map of another configuration would be reused'))
@@ -510,4 +554,4 @@ from ..presence import rule_for as _presence_rule
 
 RULES_PRESENCE = ('Rp.presence', _presence_rule('C15', 'a legal zero would be read as missing'))
 
-RULES = [('R5.common-range', r5_common_range), ('R1.layout', r1_layout), ('R2.indices', r2_indices), ('R3.grid', r3_grid), ('R4.walk', r4_walk), RULES_MEMO, RULES_PRESENCE, ('Re.for-each', re_foreach), ('Ra.alias-mutation', ra_alias), ('Rn.arg-roles', rn_arg_roles), ('R6.declared-bands', r6_declared_bands), ('R8.default-range', r8_default_range), ('R9.vertices', r9_vertices)]
+RULES = [('R5.common-range', r5_common_range), ('R1.layout', r1_layout), ('R2.indices', r2_indices), ('R3.grid', r3_grid), ('R4.walk', r4_walk), RULES_MEMO, RULES_PRESENCE, ('Re.for-each', re_foreach), ('Ra.alias-mutation', ra_alias), ('Rn.arg-roles', rn_arg_roles), ('R6.declared-bands', r6_declared_bands), ('R8.default-range', r8_default_range), ('R9.vertices', r9_vertices), ('R10.network-range', r10_network_range)]
